@@ -136,7 +136,7 @@ def add_query_argument(url, name, value=None, quote=True):
     if quote:
         name = unshadowed_quote(name)
 
-    if value == True or value is None:
+    if value is True or value is None:
         arg = name
     else:
         if quote:
